@@ -336,16 +336,20 @@ def run_dag(ctx, spec, formulas, gid):
     return
 
 
-CYC_KINDS = ['cell', 'range', 'rect', 'col', 'sumif_target', 'index', 'cross', 'count', 'if_branch', 'iferror']
+CYC_KINDS = ['cell', 'range', 'rect', 'col', 'sumif_target', 'index', 'cross', 'count', 'if_branch', 'iferror', 'mirror', 'mirror_abs', 'mirror_quoted']
+# how the cells of the ring refer to the next one: an arithmetic step, nothing but the reference (bare, sheet-qualified, absolute), or a mix
+EDGE_FORMS = {'plain': ['{n}+A1'], 'bare': ['{n}', 'Main!{n}', "'Main'!{n}", 'Main!{abs}', '{abs}'],
+              'mixed': ['{n}+A1', '{n}', 'Main!{n}', '-{n}', '({n})', '{n}%', 'IF(A1>0,{n},1)', 'SUM({n},1)', '{n}&""', "'Main'!{abs}*1", 'IFERROR({n},0)', '{n}=1']}
 
 
-def make_cycle(rng, kind, length):
+def make_cycle(rng, kind, length, edges='plain'):
     """cells K1..Kn on Main in a ring; the back edge from the last to the first uses `kind`"""
     cells = {'A1': 1, 'A2': 2, 'B1': 3}
     other = {'A1': 5}
     ring = [f'C{i + 1}' for i in range(length)]
     for i, a in enumerate(ring[:-1]):
-        cells[a] = f'={ring[i + 1]}+A1'
+        n = ring[i + 1]
+        cells[a] = '=' + rng.choice(EDGE_FORMS[edges]).format(n=n, abs=f'${n[0]}${n[1:]}')
     last, first = ring[-1], ring[0]
     fr, fc = wbspec.rc(first)
     if kind == 'cell':
@@ -367,6 +371,13 @@ def make_cycle(rng, kind, length):
         f = f'=COUNT(A1,{first})'
     elif kind == 'if_branch':
         f = f'=IF(A1>5,{first},7)'
+    elif kind == 'mirror':
+        f = f'=Main!{first}'
+    elif kind == 'mirror_abs':
+        f = f'=${first[0]}${first[1:]}'
+    elif kind == 'mirror_quoted':
+        other['B2'] = f"='Main'!{first}"
+        f = "='Other'!$B$2"
     else:
         f = f'=IFERROR({first},0)'
     cells[last] = f
@@ -437,9 +448,12 @@ def run_shard(shard, ctx):
         idx = 0
         for kind in CYC_KINDS:
             for length in range(1, 6):
-                spec, first = make_cycle(rng, kind, length)
-                run_cycle(ctx, spec, first, kind, length, idx)
-                idx += 1
+                for edges in ('plain', 'bare', 'mixed'):
+                    if length == 1 and edges != 'plain':
+                        continue
+                    spec, first = make_cycle(rng, kind, length, edges)
+                    run_cycle(ctx, spec, first, kind + ':' + edges, length, idx)
+                    idx += 1
         r.sample({'cycle': {'kind': 'sumif_target', 'length': 3, 'C3': '=SUMIF(A1:A2,">0",C1)'}})
         r.seen('cycles_followed_by_translator', tmon.cycle_seen)
 
